@@ -181,12 +181,15 @@ func (l *Lexer) Next() (TokenType, []byte) {
 // The following functions follow the specifications at http://www.w3.org/html/wg/drafts/html/master/syntax.html
 
 func (l *Lexer) shiftDOCTYPEText() []byte {
-	inString := false
+	quote := byte(0) // the quote character of the literal we are in, or zero
 	inBrackets := false
 	for {
 		c := l.r.Peek(0)
-		if c == '"' {
-			inString = !inString
+		inString := quote != 0
+		if c == quote && inString {
+			quote = 0
+		} else if (c == '"' || c == '\'') && !inString {
+			quote = c
 		} else if (c == '[' || c == ']') && !inString {
 			inBrackets = (c == '[')
 		} else if c == '>' && !inString && !inBrackets {
